@@ -2121,6 +2121,18 @@ class FnTranslator:
             self.check_ty(t, pt, "argument of external %s" % name)
             terms.append(term if " " not in term or term.startswith("(") else "(" + term + ")")
         u = self.u
+        if rt[0] == "result" and spec.get("monadic"):
+            # an external of the policy layer itself (e.g. the inner validator of a wrapping validator): a function into
+            # `Rs.M T`, usable with `?` and in tail position like a translated Result function; the theorems
+            # instantiate it (e.g. with the generated body of the inner validator's method)
+            inner = rt[1]
+            lty = LazyTy(lambda: " → ".join([u.lt(t, False) for t in pts] + ["Rs.M " + u.lt(inner, False)]))
+            for t in pts + [inner]:
+                self.u.opaques_of(t, self.ext_opaques)
+            ident = "ext_" + name.replace(".", "_")
+            self.add_ext(ident, lty)
+            if not self.is_result: raise RsError("monadic external called outside a Result function")
+            return "%s %s" % (ident, " ".join(terms)), inner, "comp"
         if rt[0] == "result":
             # an external that returns Result<T, _>: `Option T` in Lean; the only supported use is
             # `ext(..).map_err(|e| policy_error(tag, ..))?`
@@ -2217,6 +2229,12 @@ class FnTranslator:
             pre.append(("let", v, base))
             self.place_set(recv, "none", env, pre)
             return v, bt, "val"
+        if recv[0] == "field":
+            # `self.inner.method(..)` with `inner` of an opaque type (`Arc<dyn Trait>`): a method external on it
+            pre0 = []
+            _, bt0 = self.expr(recv, env, pre0, None)
+            if bt0[0] in ("struct", "opaque") and "%s.%s" % (bt0[1], m) in self.u.externals:
+                return self.call_external("%s.%s" % (bt0[1], m), [recv] + list(args), env, pre)
         base, bt = self.expr(recv, env, pre, None)
         k = bt[0]
         if m in ("clone", "copied", "cloned", "as_ref", "to_owned", "borrow") and not args and k not in ("iter", "viter"):
